@@ -4,6 +4,7 @@ package main
 
 import (
 	"flag"
+	"strings"
 	"fmt"
 	"os"
 	"runtime/debug"
@@ -77,5 +78,25 @@ func run(prop, tier, repo, verifd string, f propFn) (code int) {
 	}
 	r := NewReport(prop, tier, w)
 	f(w, r)
+	if tier == "thorough" && os.Getenv("YV_SELFTEST") == "" {
+		vs := runSelfTest(prop, repo, verifd)
+		r.Extra["sensitivity_selftest"] = vs
+		fired, missed, skipped := 0, 0, 0
+		for _, v := range vs {
+			switch v.Status {
+			case "fired":
+				fired++
+			case "missed", "false-alarm":
+				missed++
+				fmt.Printf("SELFTEST-%s: property=%s seeded change %s %s\n", strings.ToUpper(v.Status), prop, v.ID, v.Note)
+			case "skipped":
+				skipped++
+			}
+		}
+		r.Analysed["selftest: seeded changes fired"] = fired
+		r.Analysed["selftest: seeded changes missed"] = missed
+		r.Analysed["selftest: seeded changes skipped (patch no longer applies)"] = skipped
+		fmt.Printf("%s selftest: %d stored seeded changes re-applied as overlays: %d fired, %d missed, %d skipped\n", prop, len(vs), fired, missed, skipped)
+	}
 	return r.Finish(verifd)
 }
